@@ -257,22 +257,21 @@ Section Routes.
   Qed.
 
   (* the Msg-path chase over a store-backed Queryer: every appended hop was admitted for
-     (printed target of the previous alias, the client's type and CD), shared audience — and for
-     class IN, not for the client's class *)
-  Inductive msg_linked (qt : N) (cd : bool) : entry -> list entry -> Prop :=
-  | ml_nil e : msg_linked qt cd e []
+     (printed target of the previous alias, the client's type, class and CD), shared audience *)
+  Inductive msg_linked (qt qc : N) (cd : bool) : entry -> list entry -> Prop :=
+  | ml_nil e : msg_linked qt qc cd e []
   | ml_cons e nxt l tw ls :
       e_alias e = Some tw -> parse_wire tw = Some ls ->
-      same_question nxt (present ls) qt class_inet cd -> e_scope nxt = None ->
-      msg_linked qt cd nxt l -> msg_linked qt cd e (nxt :: l).
+      same_question nxt (present ls) qt qc cd -> e_scope nxt = None ->
+      msg_linked qt qc cd nxt l -> msg_linked qt qc cd e (nxt :: l).
 
-  Lemma msg_chase_sound (s : store) fuel : forall qt cd e,
-    msg_linked qt cd e (msg_chase K K_eqb H s fuel qt cd e).
+  Lemma msg_chase_sound (s : store) fuel : forall qt qc cd e,
+    msg_linked qt qc cd e (msg_chase K K_eqb H s fuel qt qc cd e).
   Proof.
-    induction fuel as [|f IH]; intros qt cd e; [constructor|].
+    induction fuel as [|f IH]; intros qt qc cd e; [constructor|].
     cbn [msg_chase]. destruct (e_alias e) as [tw|] eqn:Ea; [|constructor].
     destruct (parse_wire tw) as [ls|] eqn:Ep; cbn [option_map]; [|constructor].
-    destruct (store_lookup s (mk_q (present ls) qt class_inet) cd) as [nxt|] eqn:El; [|constructor].
+    destruct (store_lookup s (mk_q (present ls) qt qc) cd) as [nxt|] eqn:El; [|constructor].
     apply store_lookup_sound in El. destruct El as [Hq Hs]. cbn [q_name q_type q_class] in Hq.
     eapply ml_cons; eauto.
   Qed.
@@ -723,21 +722,16 @@ Example scoped_collision :
   serve_msg_exact N N.eqb len_hash ex_scoped ex_q1 false (Some (mk_scope true 8 [10;0;0;0])) = None.
 Proof. vm_compute. repeat split; reflexivity. Qed.
 
-(* the decoded-path chase does NOT keep the client's class: a class-CH alias hit is completed from
-   the class-IN entry of its target (computed witness; replayed on the Go code by the store driver's
-   hist-msgchase-class histories) *)
+(* regression example for fix f46047f: a class-CH alias hit is no longer completed from the class-IN
+   entry of its target (before the fix the sub-query was always class IN and the reply held entry 2) *)
 Definition ex_ch_alias : store bytes :=
-  let hidf (p : bytes) := p in
   let alias_q := mk_q [97;46] 1 3 in                       (* a. A CH *)
   let target_in := mk_q [116;46] 1 1 in                    (* t. A IN *)
   set_from_response bytes bytes_eqb (cachekey_pre target_in false None) target_in false None 2 None
     (set_from_response bytes bytes_eqb (cachekey_pre alias_q false None) alias_q false None 1 (Some [1;116;0]) (empty_store bytes)).
-Lemma msg_chase_class_witness :
-  exists (s : store bytes) q cd e nxt,
-    serve_msg_exact bytes bytes_eqb (fun p => p) s q cd None = Some e /\
-    msg_chase bytes bytes_eqb (fun p => p) s 10 (q_type q) cd e = [nxt] /\
-    q_class q = 3 /\ q_class (e_q nxt) = 1.
-Proof.
-  exists ex_ch_alias, (mk_q [97;46] 1 3), false.
-  eexists. eexists. vm_compute. repeat split; reflexivity.
-Qed.
+Example msg_chase_keeps_class_example :
+  option_map (fun e => map e_id (msg_chase bytes bytes_eqb (fun p => p) ex_ch_alias 10 1 3 false e))
+             (serve_msg_exact bytes bytes_eqb (fun p => p) ex_ch_alias (mk_q [97;46] 1 3) false None) = Some [] /\
+  option_map (fun e => map e_id (msg_chase bytes bytes_eqb (fun p => p) ex_ch_alias 10 1 1 false e))
+             (serve_msg_exact bytes bytes_eqb (fun p => p) ex_ch_alias (mk_q [97;46] 1 3) false None) = Some [2].
+Proof. vm_compute. split; reflexivity. Qed.
